@@ -42,9 +42,9 @@ theorem succsAux_nil (S : Sys σ τ) (s : σ) :
 theorem succs_nil_stuck (S : Sys σ τ) (c : Cfg σ τ) (h : succs S c = []) : Stuck S c :=
   fun t ht => succsAux_nil S c.1 c.2 [] h t ht
 
-theorem explore_sound (S : Sys σ τ) (key : Cfg σ τ → κ) [BEq κ] (P : Cfg σ τ → Prop)
+theorem explore_sound (S : Sys σ τ) (key : Cfg σ τ → κ) [BEq κ] [Hashable κ] (P : Cfg σ τ → Prop)
     (hP : ∀ a b, P a → Step S a b → P b) :
-    ∀ (fuel : Nat) (work : List (Cfg σ τ)) (seen : List κ) (acc : List (Cfg σ τ)),
+    ∀ (fuel : Nat) (work : List (Cfg σ τ)) (seen : Std.HashSet κ) (acc : List (Cfg σ τ)),
       (∀ c ∈ work, P c) → (∀ c ∈ acc, P c ∧ Stuck S c) →
       ∀ c ∈ (explore S key fuel work seen acc).1, P c ∧ Stuck S c := by
   intro fuel
@@ -62,12 +62,12 @@ theorem explore_sound (S : Sys σ τ) (key : Cfg σ τ → κ) [BEq κ] (P : Cfg
       · exact ih work seen acc hrest hacc c hc
       · split at hc
         · rename_i _ hemp
-          refine ih work (key w :: seen) (w :: acc) hrest ?_ c hc
+          refine ih work (seen.insert (key w)) (w :: acc) hrest ?_ c hc
           intro d hd
           rcases List.mem_cons.mp hd with rfl | hd'
           · exact ⟨hw, succs_nil_stuck S d (by simpa using hemp)⟩
           · exact hacc d hd'
-        · refine ih (succs S w ++ work) (key w :: seen) acc ?_ hacc c hc
+        · refine ih (succs S w ++ work) (seen.insert (key w)) acc ?_ hacc c hc
           intro d hd
           rcases List.mem_append.mp hd with h1 | h2
           · exact hP w d hw (succs_sound S w d h1)
@@ -75,10 +75,10 @@ theorem explore_sound (S : Sys σ τ) (key : Cfg σ τ → κ) [BEq κ] (P : Cfg
 
 /-- Everything the driver considers an admissible quiescent outcome is a reachable stuck configuration of
 the model. -/
-theorem quiescentFrom_sound (S : Sys σ τ) (key : Cfg σ τ → κ) [BEq κ] (starts : List (Cfg σ τ))
+theorem quiescentFrom_sound (S : Sys σ τ) (key : Cfg σ τ → κ) [BEq κ] [Hashable κ] (starts : List (Cfg σ τ))
     (c : Cfg σ τ) (h : c ∈ (quiescentFrom S key starts).1) :
     (∃ c0 ∈ starts, Reach S c0 c) ∧ Stuck S c := by
-  refine explore_sound S key (fun c => ∃ c0 ∈ starts, Reach S c0 c) ?_ 200000 starts [] [] ?_ ?_ c h
+  refine explore_sound S key (fun c => ∃ c0 ∈ starts, Reach S c0 c) ?_ 200000 starts {} [] ?_ ?_ c h
   · rintro a b ⟨c0, h0, hr⟩ hs
     exact ⟨c0, h0, Reach.tail hr hs⟩
   · intro c hc; exact ⟨c, hc, Reach.refl c⟩
